@@ -233,6 +233,9 @@ def write_index():
             continue
         m = json.load(open(f))
         det = ", ".join(m.get("detected_by") or []) or "**none**"
+        rc = m.get("recheck")
+        if isinstance(rc, dict) and rc.get("changed_tree_demo") == "PASS":
+            det = "not a breaking change any more: on the repaired tree (%s) its own demonstration passes (a later `fix:` commit made the property robust against it)" % m.get("rechecked_at_repo", "HEAD")
         others = ", ".join("%s:%s" % (c, {0: "quiet", 1: "VIOLATION", 2: "undecided"}.get(v["exit"], v["exit"])) for c, v in (m.get("checks") or {}).items())
         rows.append("| %s | %s | %s | %s | %s |" % (name, m["property"], (m.get("summary") or "").replace("|", "/")[:160], (m.get("needs") or "").replace("|", "/").replace("\n", " ")[:200], det + " (" + others + ")"))
     txt = "# Seeded changes and the checks that catch them\n\nEach change was produced by a sub-agent that saw only the property text and a scratch worktree; " \
